@@ -19,6 +19,8 @@ pub const SEC: u64 = 1_000_000_000;
 #[derive(Debug, Clone, PartialEq, Eq, Hash, Serialize, Deserialize)]
 pub enum Op {
     Insert { name: u8, rtype: u8, val: u8, ttl: u32 },
+    /// a whole answer section at once: (name, type, value, ttl) each
+    InsertAll { records: Vec<(u8, u8, u8, u32)> },
     Get { name: u8, rtype: u8 },
     GetAny { name: u8 },
     GetUnchecked { name: u8, rtype: u8 },
@@ -88,6 +90,16 @@ impl AnyCache {
         match self {
             AnyCache::Shared(c) => c.prune(),
             AnyCache::Plain(c) => c.prune(),
+        }
+    }
+    fn insert_all(&mut self, rrs: &[ResourceRecord]) {
+        match self {
+            AnyCache::Shared(c) => c.insert_all(rrs),
+            AnyCache::Plain(c) => {
+                for rr in rrs {
+                    c.insert(rr);
+                }
+            }
         }
     }
     fn snapshot(&self) -> verif::Snapshot<DomainName, RecordType, RecordTypeWithData> {
@@ -180,6 +192,31 @@ pub fn run_history(h: &History) -> (Vec<Finding>, Stats) {
                             stats.reinsert_multi_type = true;
                             pending_multi_reinsert = true;
                         }
+                    }
+                    entries.insert(k, now + u64::from(*ttl) * SEC);
+                    inserted_at.insert(k, now);
+                    advanced_since_insert.remove(&k);
+                    def_use[n as usize] = now;
+                    maybe_use[n as usize] = now;
+                }
+            }
+            Op::InsertAll { records } => {
+                let rrs: Vec<ResourceRecord> = records
+                    .iter()
+                    .map(|(n, t, v, ttl)| ResourceRecord { name: name_of(*n % 4), rtype_with_data: data_of(*t % 4, *v % 4), rclass: RecordClass::IN, ttl: *ttl })
+                    .collect();
+                cache.insert_all(&rrs);
+                // same meaning as inserting them one after the other; the
+                // comparison of the stored set with the model (below) reports a
+                // TTL-0 record that the shared cache kept
+                for (n, t, v, ttl) in records {
+                    let (n, t, v) = (*n % 4, *t % 4, *v % 4);
+                    if *ttl == 0 && !h.plain_cache {
+                        continue;
+                    }
+                    let k = (n, t, v);
+                    if entries.contains_key(&k) {
+                        stats.reinserts += 1;
                     }
                     entries.insert(k, now + u64::from(*ttl) * SEC);
                     inserted_at.insert(k, now);
@@ -483,6 +520,20 @@ pub fn gen_history(g: &mut Gen, o: &HistoryOpts) -> History {
     let mut last_ttl: u32 = 300;
     for _ in 0..n {
         let op = match g.weighted(&o.weights) {
+            0 if g.chance(1, 4) => {
+                // an answer section: several records at once, TTL 0 among them
+                let k = g.range(2, 4);
+                let records = (0..k)
+                    .map(|_| {
+                        let ttl = g.pick(&[300u32, 0, 1, 2, 5, 0]);
+                        if ttl > 0 {
+                            last_ttl = ttl;
+                        }
+                        (g.below(4) as u8, g.below(4) as u8, g.below(3) as u8, ttl)
+                    })
+                    .collect();
+                Op::InsertAll { records }
+            }
             0 => {
                 let ttl = g.pick(&[300u32, 1, 2, 5, 0, u32::MAX, 1, 2]);
                 if ttl > 0 {
